@@ -285,6 +285,13 @@ CancelCaller(c) ==
     /\ Emit([e |-> "Cancel", c |-> c])
     /\ UNCHANGED <<lstate, cur, cache, marker, lock, evset, nev, loc, finv, fout, proxy, retries>>
 
+CancelBeforeStart(c) ==  \* the harness cancels a caller task that has not made its call yet: it never calls
+    /\ Cancels /\ pc[c] = "start" /\ cur[L(c)] # c /\ c \notin hit
+    /\ hit' = hit \cup {c}
+    /\ pc' = [pc EXCEPT ![c] = "done"]
+    /\ Emit([e |-> "Cancel", c |-> c])
+    /\ UNCHANGED <<lstate, cur, cache, marker, lock, evset, nev, loc, finv, fout, proxy, retries>>
+
 WaitCancelled(c) ==  \* CancelledError reaches the waiting caller: cancel the waiter, re-raise
     /\ pc[c] = "cancelled_wait" /\ Runs(c)
     /\ proxy' = [proxy EXCEPT ![c] = [host |-> None, ev |-> 0, st |-> "none"]]
@@ -297,19 +304,19 @@ Unfinished(l) == {c \in Callers : L(c) = l /\ pc[c] # "done"}
 LoopStop(l) ==       \* run_until_complete(main) returns (possibly with calls pending)
     /\ LifeCycles
     /\ lstate[l] = "run" /\ cur[l] = NoC
-    /\ \A c \in Callers : L(c) = l => pc[c] # "start"
     /\ lstate' = [lstate EXCEPT ![l] = "stopped"]
     /\ Emit([e |-> "LoopStopped", loop |-> l])
     /\ UNCHANGED <<cur, pc, cache, marker, lock, evset, nev, loc, finv, fout, proxy, hit, retries>>
 
-LoopShutdown(l) ==   \* asyncio.run's clean-up: cancel every leftover task, run until they are done
+LoopShutdown(l) ==   \* asyncio.run's clean-up, first half: every leftover task of the loop is cancelled
     /\ lstate[l] = "stopped"
-    /\ lstate' = [lstate EXCEPT ![l] = "drain"]
-    /\ LET victims == {c \in Unfinished(l) : pc[c] \in {"funcwait", "funcwait_ready", "waiting", "wake"}} IN
+    /\ lstate' = [lstate EXCEPT ![l] = "cancelled"]
+    /\ LET victims == {c \in Unfinished(l) : pc[c] \in {"funcwait", "funcwait_ready", "waiting", "wake", "start"}} IN
        /\ hit' = hit \cup victims
        /\ pc' = [c \in Callers |->
                    IF c \in victims
-                   THEN (IF pc[c] \in {"funcwait", "funcwait_ready"} THEN "cancelled_func" ELSE "cancelled_wait")
+                   THEN (IF pc[c] \in {"funcwait", "funcwait_ready"} THEN "cancelled_func"
+                         ELSE IF pc[c] = "start" THEN "done" ELSE "cancelled_wait")
                    ELSE pc[c]]
        /\ proxy' = [d \in Callers |->
                       IF proxy[d].host = l /\ proxy[d].st \in {"queued", "waiting", "woken"}
@@ -318,20 +325,29 @@ LoopShutdown(l) ==   \* asyncio.run's clean-up: cancel every leftover task, run 
                      F(m, S) == IF S = {} THEN m
                                 ELSE LET x == CHOOSE y \in S : TRUE IN
                                      F(MStep(m, [e |-> "Cancel", c |-> x, t |-> 0, n |-> 0], 0), S \ {x})
-                 IN MStep(F(mon, victims), [e |-> "LoopRunning", loop |-> l, t |-> 0, n |-> 0], 0)
+                 IN F(mon, victims)
     /\ UNCHANGED <<cur, cache, marker, lock, evset, nev, loc, finv, fout, retries>>
 
-LoopClose(l) ==      \* loop.close(): after the drain, or directly (tasks abandoned)
-    /\ \/ lstate[l] = "drain" /\ Unfinished(l) = {} /\ cur[l] = NoC
-       \/ lstate[l] = "stopped"
+LoopDrainStart(l) == \* ... second half: run_until_complete(gather(cancelled tasks)): the loop runs again
+    /\ lstate[l] = "cancelled"
+    /\ lstate' = [lstate EXCEPT ![l] = "drain"]
+    /\ Emit([e |-> "LoopRunning", loop |-> l])
+    /\ UNCHANGED <<cur, pc, cache, marker, lock, evset, nev, loc, finv, fout, proxy, hit, retries>>
+
+LoopDrainDone(l) ==  \* the cancelled tasks are done: the loop stops for good
+    /\ lstate[l] = "drain" /\ Unfinished(l) = {} /\ cur[l] = NoC
+    /\ lstate' = [lstate EXCEPT ![l] = "drained"]
+    /\ Emit([e |-> "LoopStopped", loop |-> l])
+    /\ UNCHANGED <<cur, pc, cache, marker, lock, evset, nev, loc, finv, fout, proxy, hit, retries>>
+
+LoopClose(l) ==      \* loop.close() after the drain, or directly (tasks abandoned); or the loop is just left
+    /\ lstate[l] \in {"drained", "stopped"}
     /\ lstate' = [lstate EXCEPT ![l] = "closed"]
-    /\ mon' = LET m1 == IF lstate[l] = "drain"
-                        THEN MStep(mon, [e |-> "LoopStopped", loop |-> l, t |-> 0, n |-> 0], 0) ELSE mon
-              IN MStep(m1, [e |-> "LoopAbandoned", loop |-> l, t |-> 0, n |-> 0], 0)
+    /\ Emit([e |-> "LoopAbandoned", loop |-> l])
     /\ UNCHANGED <<cur, pc, cache, marker, lock, evset, nev, loc, finv, fout, proxy, hit, retries>>
 
 \* ---------------------------------------------------------------- next-state relation
-Abandoned(c) == lstate[L(c)] \in {"stopped", "closed"}
+Abandoned(c) == lstate[L(c)] \in {"stopped", "cancelled", "drained", "closed"}
 AllSettled == \A c \in Callers : pc[c] = "done" \/ Abandoned(c)
 Finished == AllSettled /\ \A l \in Loops : lstate[l] \in {"run", "closed"} \/ ~LifeCycles
 Done == Finished /\ UNCHANGED vars
@@ -341,10 +357,10 @@ CallerStep(c) ==
     \/ FuncStart(c) \/ FuncDue(c) \/ FuncResume(c) \/ FuncEnd(c) \/ FuncCancelled(c)
     \/ Store(c) \/ FinAcq(c) \/ FinSet(c) \/ FinDel(c) \/ FinRel(c)
     \/ MkWait(c) \/ ProxyStep(c) \/ BridgeWake(c) \/ Wake(c) \/ Timeout60(c)
-    \/ CancelCaller(c) \/ WaitCancelled(c)
+    \/ CancelCaller(c) \/ CancelBeforeStart(c) \/ WaitCancelled(c)
 
 Next == \/ \E c \in Callers : CallerStep(c)
-        \/ \E l \in Loops : LoopStop(l) \/ LoopShutdown(l) \/ LoopClose(l)
+        \/ \E l \in Loops : LoopStop(l) \/ LoopShutdown(l) \/ LoopDrainStart(l) \/ LoopDrainDone(l) \/ LoopClose(l)
         \/ Done
 
 Spec == Init /\ [][Next]_vars
